@@ -305,6 +305,9 @@ func (e *Explorer) lvalue(s *pstate, addr ssa.Value) *T {
 	}
 	// pointer value held in a register / parameter / loaded from the heap
 	p := e.val(s, addr)
+	if p.Op == "addr" {
+		return p.A[0] // a pointer to named storage (passed to an expanded helper): the storage itself
+	}
 	var ty types.Type
 	if pt, ok := addr.Type().Underlying().(*types.Pointer); ok {
 		ty = pt.Elem()
